@@ -73,6 +73,9 @@ def gen_plan(seed, tier):
     if r.chance(1, 3):
         for _ in range(r.range(1, 2)):
             faults.append([r.range(0, nruns - 1), r.range(0, 10)])
+    if r.chance(1, 4):   # a blocked sem_wait of one run is interrupted by a signal (mfront embedded in an application that installs handlers)
+        for _ in range(r.range(1, 3)):
+            faults.append([r.range(0, nruns - 1), r.range(1, 8), 1])
     return {"params": [seq], "runs": runs, "faults": faults}
 
 
@@ -81,7 +84,7 @@ def describe(plan):
     for i, t in enumerate(plan["runs"]):
         s += " r%d[%s]" % (i, " ".join(t))
     for f in plan["faults"]:
-        s += " fault:kill(run %d at its request #%d)" % (f[0], f[1])
+        s += (" fault:EINTR(run %d, blocked wait at its request #%d)" if len(f) >= 3 and f[2] == 1 else " fault:kill(run %d at its request #%d)") % (f[0], f[1])
     return s
 
 
@@ -126,7 +129,8 @@ def run_history(plan, seed, decisions, launcher):
 
     seq = plan["params"][0] if plan["params"] else 0
     runs = plan["runs"]
-    faults = {(f[0], f[1]) for f in plan["faults"] if len(f) >= 2}
+    faults = {(f[0], f[1]) for f in plan["faults"] if len(f) >= 2 and (len(f) < 3 or f[2] == 0)}     # kill before the request
+    efaults = {(f[0], f[1]) for f in plan["faults"] if len(f) >= 3 and f[2] == 1}                     # a blocked sem_wait is interrupted by a signal (EINTR)
     procs = {}
     nxt = 0
     # named semaphores: a name designates an object until it is unlinked; processes keep the object they opened
@@ -178,6 +182,8 @@ def run_history(plan, seed, decisions, launcher):
                 blocked = p.pending[0] in "WX" and not (p.idx in pobj and objs[pobj[p.idx]] > 0)
                 if blocked and p.pending.startswith("X"):
                     actions.append(("timeout", p.idx))   # the simulated clock may pass the deadline of a timed wait at any time
+                if blocked and (p.idx, p.nreq - 1) in efaults:
+                    actions.append(("eintr", p.idx))     # a signal whose handler was installed without SA_RESTART interrupts the blocked wait
                 if blocked:
                     continue
                 actions.append(("grant", p.idx))
@@ -197,6 +203,14 @@ def run_history(plan, seed, decisions, launcher):
                 procs[i] = p
                 trace.append("start r%d" % i)
                 bump("process_started")
+                fetch(p)
+            elif a[0] == "eintr":
+                p = procs[a[1]]
+                trace.append("r%d %s -> EINTR (interrupted by a signal)" % (p.idx, p.pending))
+                bump("blocked_wait_interrupted_EINTR")
+                efaults.discard((p.idx, p.nreq - 1))
+                p.pending = None
+                p.sock.sendall(b"I")
                 fetch(p)
             elif a[0] == "timeout":
                 p = procs[a[1]]
@@ -250,13 +264,17 @@ def run_history(plan, seed, decisions, launcher):
                             wholders.discard(p.idx)
                         else:
                             bump("post_without_wait")
+                    elif k == "G":
+                        import struct
+                        reply = b"V" + struct.pack("<i", objs[o] if o is not None else 0)
+                        bump("sem_getvalue_calls")
                     elif k == "M":
                         m = req[2:]
                         if m == "ENTER":
                             holders.add(p.idx)
                         elif m == "EXIT":
                             holders.discard(p.idx)
-                    trace.append("r%d %s%s" % (p.idx, req, "" if reply == b"K" else " -> error"))
+                    trace.append("r%d %s%s" % (p.idx, req, "" if reply[:1] in (b"K", b"V") else " -> error"))
                     p.pending = None
                     p.sock.sendall(reply)
                     fetch(p)
@@ -331,6 +349,8 @@ def gen_real_plan(seed):
     seq = r.range(0, nruns - 1) if r.chance(2, 3) else 0
     runs = [["F%d" % r.range(0, 5)] for _ in range(nruns)]
     faults = [[r.range(0, nruns - 1), r.range(0, 6)]] if r.chance(1, 4) else []
+    if r.chance(1, 4):
+        faults.append([r.range(0, nruns - 1), r.range(1, 6), 1])
     return {"params": [seq], "runs": runs, "faults": faults, "real": 1}
 
 
@@ -395,7 +415,7 @@ def minimise(rec, L, budget=300):
     # runs: removing a run renumbers the following ones; faults refer to run indices -> remap
     def without_run(p, i):
         q = dict(p, params=[max(0, p["params"][0] - (1 if i < p["params"][0] else 0))], runs=[t for j, t in enumerate(p["runs"]) if j != i],
-                 faults=[[f[0] - (1 if f[0] > i else 0), f[1]] for f in p["faults"] if f[0] != i])
+                 faults=[[f[0] - (1 if f[0] > i else 0), f[1]] + list(f[2:]) for f in p["faults"] if f[0] != i])
         return q
     changed = True
     while changed and b[0] > 0:
